@@ -167,6 +167,10 @@ package oci
 //@
 //@ ghost local pushIngestOK bool
 //@ ghost local pushIngestPath string
+//@ func NewStorage
+//@   ensures [C10:ingest-directory-is-a-sibling-of-blobs-not-inside-it] result1 == nil ==> result0 != nil && result0.root == absOf(root) && result0.ingestRoot == joined(absOf(root), "ingest")
+//@   opt trust-frame
+//@   modifies alloc
 //@ func (*Storage).Push
 //@   requires [wf] s != nil
 //@   entry set pushIngestOK = false
